@@ -176,6 +176,8 @@ def _hist(ctx, mode, img, rule, n_quick, n_thorough, as_propfail=False, extra_ar
         else:
             shards = 8 if ctx.tier == "quick" else 16
             n = n_quick if ctx.tier == "quick" else n_thorough
+            if ctx.budget_s:          # widened search after a broken proof/correspondence: time-boxed
+                n = n_quick * 6
             tmo = 900 if ctx.tier == "quick" else (ctx.budget_s or 3000)
             runs = run_sharded(ctx, "c04", shards, lambda i: ["-seed", str(ctx.seed * 1000 + i), "-n", str(n // shards), "-img", img,
                                                              "-dir", "{dir}"] + list(extra_args) + (["-txs", "40", "-ops", "40"] if ctx.tier == "thorough" and i % 4 == 0 else []),
@@ -203,7 +205,17 @@ def c04(ctx):
 def c07(ctx):
     """C07 page accounting: after every commit the file bytes are decoded by the extracted Coq reader (Layout.v) and
     Layout.accounted / key order / element bounds / file length are evaluated; Tx.Check must be clean at the end of every history."""
-    return _hist(ctx, "c07", "commit", HIST_RULE + "; one file image per commit", 240, 16000)
+    res = _hist(ctx, "c07", "commit", HIST_RULE + "; one file image per commit; plus failed-commit histories (every I/O call index of a commit failed once, see C08) checked for the same accounting", 240, 16000)
+    # failed transactions are part of C07's quantifier: the C08 fault histories, judged by the accounting rules only
+    if not ctx.replay:
+        ctx2 = Ctx(pid="C07", tier=ctx.tier, seed=ctx.seed, replay=None, t0=ctx.t0, budget_s=ctx.budget_s)
+        ctx2.dir = ctx.dir + ".f"
+        with ctx2:
+            runs = run_sharded(ctx2, "c08", 8, lambda i: ["-seed", str(ctx.seed * 1000 + 500 + i), "-n", "2" if (ctx.tier == "quick" or ctx.budget_s) else "20", "-dir", "{dir}"],
+                               ctx.budget_s or (900 if ctx.tier == "quick" else 3000), oracle_mode="c07")
+            for r in runs:
+                absorb(res, "C07", *r)
+    return res
 
 
 def c12(ctx):
@@ -281,7 +293,7 @@ def c08(ctx):
     res.rule = ("one case = (workload, failing call index k, reader held or not); distinct by MD5 of the op list; non-trivial if the fault hit (flag fault-<kind>); "
                 "workloads: 1-4 committed transactions then a burst of 3-43 puts (values up to 3 pages), page sizes 1024-16384, both backends, freelist-sync on/off, small initial map (remap in the failing commit)")
     with ctx:
-        n = "3" if ctx.tier == "quick" else "40"
+        n = "3" if (ctx.tier == "quick" or ctx.budget_s) else "40"
         shards = 8 if ctx.tier == "quick" else 16
         if ctx.replay:
             runs = run_sharded(ctx, "c08", 1, lambda i: ["-replay", ctx.replay, "-dir", "{dir}"], 900)
